@@ -831,6 +831,35 @@ func (g *Gen) Step() {
 		x.Apply(Op{K: KMaxVals, N: 3 + g.intn("maxvals", 4)})
 	case KExportImp:
 		x.Apply(Op{K: KExportImp})
+	case KValExit:
+		// prefer validators that still exist; a short unbonding time lets the removal happen soon
+		var exist []int
+		for i, v := range s.Vals {
+			if v.Shares.IsPositive() {
+				exist = append(exist, i)
+			}
+		}
+		if len(exist) <= 2 {
+			return // keep at least two validators
+		}
+		v := exist[g.intn("exit-v", len(exist))]
+		x.Apply(Op{K: KValExit, V: v})
+		if g.pct("exit-then-blocks", 60) {
+			x.Apply(Op{K: KBlock, Dt: g.dt(), Fees: g.fees()})
+			x.Apply(Op{K: KBlock, Dt: int64(x.Post().UnbondingTime) + 1, Fees: g.fees()})
+		}
+	case KValCreate:
+		var gone []int
+		for i, v := range s.Vals {
+			if v.Status == 0 {
+				gone = append(gone, i)
+			}
+		}
+		v := g.intn("v", nv)
+		if len(gone) > 0 {
+			v = gone[g.intn("gone-v", len(gone))]
+		}
+		x.Apply(Op{K: KValCreate, V: v, Amt: new(big.Int).Mul(big.NewInt(int64(g.intn("m", 9)+1)), pow10(5+g.intn("k", 3))).String(), Frac: g.pickS("commission", []string{"0", "0.1", "1"})})
 	default:
 		panic("gen: unknown kind " + kind)
 	}
